@@ -23,7 +23,7 @@ def lower_with_capacity(u, f, known):
     fnl = Fn("plain", "wc", known)
     par = [p for p, _ in f[4]][0]
     fnl.sc.bind(par, "nz", f[1])
-    body = u.parser.fn_body(f)
+    body = u.body(f)
     while not body[2] and body[3] is not None and body[3][0] == "block":      # unsafe { .. }
         body = body[3]
     stmts = list(body[2])
@@ -70,6 +70,7 @@ def lower_with_capacity(u, f, known):
                  "nor Layout::from_size_align_unchecked(SIZE, align_of::<u8>())")
     # let items = NonNull::new(alloc(layout)).ok_or_else(|| LassoError::new(LassoErrorKind::K))?.cast();
     e = strip(l2[4]); ok = False
+    if e[0] == "try": e = ("mcall", e[1], e, "cast", [])          # the `.cast()` of the allocated pointer is optional
     if e[0] == "mcall" and e[3] == "cast" and not e[4] and strip(e[2])[0] == "try":
         m = strip(strip(e[2])[2])
         if m[0] == "mcall" and m[3] == "ok_or_else" and len(m[4]) == 1 and m[4][0][0] == "closure" and not m[4][0][2]:
@@ -97,7 +98,7 @@ def lower_new(u, f, known):
     fnl = Fn("plain", "new", known)
     (p1, _), (p2, _) = f[4]
     fnl.sc.bind(p1, "nz", f[1]); fnl.sc.bind(p2, "num", f[1])
-    body = u.parser.fn_body(f)
+    body = u.body(f)
 
     def lost(e, what): raise Lost(e[1], what)
     if body[2] or body[3] is None: lost(body, "Arena::new body is not a single `Ok(Self {..})` expression")
@@ -125,6 +126,9 @@ def run(repo, out):
     known = Known()
     B = Unit(repo, "src/arenas/bucket.rs", "Bucket", BUCKET_FIELDS)
     A = Unit(repo, "src/arenas/single_threaded.rs", "Arena", ARENA_FIELDS)
+    # calls the lowering interprets itself (by specification); every other call of a function of the same file is inlined
+    B.keep = lambda ty, name, node: (ty, name) in {("Bucket", "is_full")}
+    A.keep = lambda ty, name, node: (ty, name) in {("Arena", "allocate_memory")}
     parts = []
 
     def guard(u, fn, *a):
@@ -161,13 +165,14 @@ def run(repo, out):
      %s
    DO NOT EDIT: regenerated on every run.  Terms of the IR of GenIR.v (see there for their meaning and
    lower_arena.py for the recognised source forms).  Callees replaced by their specification in these terms:
-     %s *)
+     %s
+   Private helpers of the source files inlined before lowering (astx.py): %s *)
 From Lasso Require Import Base Arena.
 From LassoGen Require Import GenPrelude GenIR.
 Open Scope string_scope.
 Open Scope N_scope.
 
-""" % (B.path, A.path, ", ".join(sorted(set("%s::%s" % (t, n) for t, n, _ in known.needs))))
+""" % (B.path, A.path, ", ".join(sorted(set("%s::%s" % (t, n) for t, n, _ in known.needs))), ", ".join(sorted(B.inlined | A.inlined)) or "none")
     names = ["gen_with_capacity", "gen_free_elements", "gen_is_full", "gen_bucket_clear", "gen_push_slice", "gen_new",
              "gen_memory_usage", "gen_clear", "gen_allocate_memory", "gen_store_str"]
     tail = "\n#[global] Hint Unfold %s : arenagen.\n" % " ".join(names)
